@@ -1048,6 +1048,8 @@ class PE:
                 if len(args) == 2:
                     return ('range', args[0], args[1], C(1))
                 return ('range', args[0], args[1], args[2])
+            if name == 'list' and len(args) == 1 and args[0][0] == 'comp' and args[0][1] == 'list':
+                return args[0]
             if name in ('list', 'tuple') and len(args) == 1:
                 it = iter_items(args[0])
                 if it is not None:
@@ -1225,7 +1227,7 @@ class PE:
             return False
         if isinstance(s, ast.Return):
             v = NONE if s.value is None else self.ev(s.value, env)
-            effects.append(('exit', 'return', v, self.roots_state(env)))
+            self.emit_return(v, self.roots_state(env), effects)
             return True
         if isinstance(s, ast.Raise):
             v = NONE if s.exc is None else self.ev(s.exc, env)
@@ -1319,6 +1321,16 @@ class PE:
         if fa or fb:
             self.emit_if(c, fa, fb, effects)
         return False
+
+    def emit_return(self, v, state, effects):
+        # `return a if c else b`  ==  `if c: return a` / `else: return b`
+        if v[0] == 'ite':
+            fa, fb = [], []
+            self.emit_return(v[2], state, fa)
+            self.emit_return(v[3], state, fb)
+            self.emit_if(v[1], fa, fb, effects)
+        else:
+            effects.append(('exit', 'return', v, state))
 
     def emit_if(self, c, fa, fb, effects):
         c, flipped = canon_cond(c)
